@@ -36,7 +36,8 @@ theorem searchLoop_insert {M : Meta} (hwf : M.wf) {F : Frame} (hF : F.ok M) (hin
         have hh := hasFields_stAt hwf F hfs hsz
         have hgt : bit < b' := by have := hhi (b', v') (List.mem_cons_self ..); simpa using this
         have hbit : (stAt M F fs done b').bit = b' := rfl
-        simp [searchLoop, hh, hbit, hgt, hcand]
+        have hns : (stAt M F fs done b').ns = 0 := rfl
+        simp [searchLoop, hh, hbit, hns, hgt, hcand]
   | cons x lo' ih =>
     obtain ⟨b1, v1⟩ := x
     intro done p cand fuel hfs hlo hp hc hf
@@ -60,8 +61,9 @@ theorem searchLoop_insert {M : Meta} (hwf : M.wf) {F : Frame} (hF : F.ok M) (hin
         (fun g hg => hlo g (List.mem_cons_of_mem _ hg)) hstep
         (fun _ => by simp only [stAt, encEnd_snoc, hv1]; omega) (by simp at hf; omega)
       refine ⟨p', by simpa using hp', ?_⟩
+      have hns : ((stAt M F fs done b1).ns == 0) = true := rfl
       unfold searchLoop
-      simp only [hh, hbit, hngt, hne, if_true, if_false]
+      simp only [hh, hns, Bool.and_self, hbit, hngt, hne, if_true, if_false]
       rw [hres]
       simp
 
@@ -92,8 +94,9 @@ theorem searchLoop_found {M : Meta} (hwf : M.wf) {F : Frame} (hF : F.ok M)
       have hbase : 8 ≤ F.base := by simp [Frame.base]
       have hav : ¬ (dl > (stAt M F fs done bit).buf.length - (stAt M F fs done bit).ptr) := by
         simp only [stAt]; omega
+      have hns : (stAt M F fs done bit).ns = 0 := rfl
       unfold searchLoop
-      simp [hh, hbit, hav]
+      simp [hh, hbit, hns, hav]
   | cons x lo' ih =>
     obtain ⟨b1, v1⟩ := x
     intro done p cand fuel hfs hlo hp hf
@@ -112,8 +115,9 @@ theorem searchLoop_found {M : Meta} (hwf : M.wf) {F : Frame} (hF : F.ok M)
       have hres := ih (done ++ [(b1, v1)]) (advanceField M (stAt M F fs done b1)).1
         ((stAt M F fs done b1).ptr + M.size b1) f hfs2
         (fun g hg => hlo g (List.mem_cons_of_mem _ hg)) hstep (by simp at hf; omega)
+      have hns : ((stAt M F fs done b1).ns == 0) = true := rfl
       unfold searchLoop
-      simp only [hh, hbit, hngt, hne, if_true, if_false]
+      simp only [hh, hns, Bool.and_self, hbit, hngt, hne, if_true, if_false]
       rw [hres]
       simp
 
